@@ -63,7 +63,10 @@ type Profile struct {
 	// LateReply: the reply comes after the transports' 6 s I/O limit (it is
 	// then a reply nobody waits for any more, on a connection that must not
 	// be used again).
-	LateReply   float64
+	LateReply float64
+	// OddHdr: a reply whose header carries another opcode, RA=0, a flipped RD
+	// or QR=0.
+	OddHdr      float64
 	Shapes      []string
 	BigAnswers  float64
 	DelayUs     [2]int64
@@ -122,6 +125,7 @@ func ProfileFor(focus, arm string) Profile {
 		}
 	case "C03":
 		p.OddQueries = 0.35
+		p.OddHdr = 0.15
 		p.Shapes = []string{"plain", "plain", "mixed", "tight"}
 		p.HugeAnswers = 0.1
 		p.RichRules = true
@@ -177,6 +181,15 @@ func ProfileFor(focus, arm string) Profile {
 		p.Unix = 0.3
 		p.RepeatToken = 0.2
 		p.OddQueries = 0.1
+		if arm == "tight" {
+			// answers around the client's size limit made of small records
+			// whose names share nothing: the OPT record has to survive
+			// whatever the truncation leaves
+			p.Shapes = []string{"tight", "tight", "plain"}
+			p.BigAnswers = 0.7
+			p.EDNSProb = 0.9
+			p.Listeners = []string{"udp", "udp", "udp", "tcp", "https"}
+		}
 		if arm == "overload" {
 			// refusals made by the listener itself (per-connection limit)
 			p.Listeners = []string{"tcp", "gnet", "tls"}
@@ -719,6 +732,11 @@ func genToken(r *rng, pr *Profile, qtype uint16) *plan.TokenSpec {
 	default:
 		t.Acts = []plan.UpAction{{Kind: "reply", DelayUs: d()}}
 	}
+	if pr.OddHdr > 0 && r.p(pr.OddHdr) {
+		for i := range t.Acts {
+			t.Acts[i].Hdr = r.rng(1, 127)
+		}
+	}
 	return t
 }
 
@@ -1139,6 +1157,7 @@ func genCacheOps(r *rng, p *plan.Plan, focus, arm string) {
 		}
 		delay := func() int64 { return r.i64(200, 40_000) }
 		t.Acts = []plan.UpAction{{Kind: "reply", DelayUs: delay()}}
+		tcRefresh := false
 		switch focus {
 		case "C19":
 			// the refresh: slow, failing, or negative
@@ -1172,6 +1191,15 @@ func genCacheOps(r *rng, p *plan.Plan, focus, arm string) {
 			if r.p(0.15) {
 				t.Acts = append([]plan.UpAction{{Kind: []string{"silent", "fin", "garbage"}[r.intn(3)], Raw: []byte{9}, DelayUs: delay()}}, t.Acts...)
 			}
+			if a.Rcode == 0 && a.Bits&refdns.BitTC == 0 && life >= 4 && r.p(0.25) {
+				// the background refresh (second fetch) is answered with TC:
+				// every path into the cache has to refuse a truncated answer
+				alt := *a
+				alt.Bits |= refdns.BitTC
+				t.Ans2, t.Ans2From = &alt, 1
+				t.Acts = []plan.UpAction{{Kind: "reply", DelayUs: delay()}}
+				tcRefresh = true
+			}
 		}
 		rp.Tokens[tok] = t
 		// operations on this key
@@ -1186,6 +1214,10 @@ func genCacheOps(r *rng, p *plan.Plan, focus, arm string) {
 			case focus == "C19" && r.p(0.7):
 				// inside / around the last quarter, in bursts
 				at = t0 + life*1_000_000*int64(70+r.intn(32))/100 + r.i64(0, 3000)
+			case focus == "C08" && tcRefresh && r.p(0.7):
+				// a hit in the last quarter starts the refresh; later ones
+				// would be served what it stored
+				at = t0 + life*1_000_000*int64(76+r.intn(23))/100 + r.i64(0, 300_000)
 			case focus == "C08" && r.p(0.4):
 				// around expiry
 				at = t0 + life*1_000_000 + r.i64(-2_500_000, 3_500_000)
